@@ -35,7 +35,7 @@ func drawC12(t *rapid.T) Case {
 		to.MaxDepth = rapid.IntRange(2, 5).Draw(t, "maxdepth")
 		to.MaxFields = rapid.IntRange(3, 12).Draw(t, "maxfields")
 	}
-	vo := gen.ValOpt{InvalidUTF8: true, NaN: rapid.IntRange(0, 3).Draw(t, "nan") == 0, Long: thorough()}
+	vo := gen.ValOpt{InvalidUTF8: true, BadNumbers: true, NaN: rapid.IntRange(0, 3).Draw(t, "nan") == 0, Long: thorough()}
 	c.TypedValue, _, _ = drawTypedValue(t, to, vo)
 	if c.Mask&optNoQuoteTextMarshaler != 0 && specHasCat(c.T, unquotedText) {
 		// output is not JSON then (documented caller error) and cannot be compared modulo map
